@@ -6,6 +6,8 @@ def dispatch (line : String) : String :=
   | "c01" :: rest => (handleC01 rest).getD "err|bad-request"
   | "c02" :: rest => (handleC02 rest).getD "err|bad-request"
   | "c03" :: rest => (handleC03 rest).getD "err|bad-request"
+  | "c04" :: rest => (handleC04 rest).getD "err|bad-request"
+  | "c05" :: rest => (handleC05 rest).getD "err|bad-request"
   | "c07" :: rest => (handleC07 rest).getD "err|bad-request"
   | "c17" :: rest => (handleC17 rest).getD "err|bad-request"
   | _ => "err|unknown-command"
